@@ -121,6 +121,11 @@ pub mod verif
         FileStateVec { infos : infos }
     }
 
+    pub fn fsv_from_states(infos : Vec<FileState>) -> FileStateVec
+    {
+        FileStateVec { infos : infos }
+    }
+
     pub fn blob_path(b : &Blob, i : usize) -> &String
     {
         &b.file_infos[i].path
